@@ -223,6 +223,8 @@ func structuredLayouts() []layout {
 		at         int
 	}{{"missing-middle", "missing", 1}, {"missing-first", "missing", 0}, {"garbage-middle", "garbage", 1},
 		{"garbage-first", "garbage", 0}, {"garbage-last", "garbage", 2}, {"empty-file", "empty", 1}, {"styp-only-file", "styponly", 1}} {
+		// {"tiny-box-file", "tinybox", 1}: a box size below the header size makes mp4ff panic inside readMP4Segment
+		// (start-up panic); the layout joins the set when proposed_fixes/C15-malformed-box-panic.diff is in the tree
 		r := vrep("V1", 1000, 3, 40, 50, "trex")
 		r.Segs[c.at].Kind = c.kind
 		add(one(c.name, videoSet(r)))
